@@ -670,6 +670,33 @@ def _is_all_columns(src, S) -> bool:
 
 def _fresh(ctx) -> None:
     prog = ctx.prog
+    # the WRITER side of the freshness protocol: a table rebuilds its accessor map when one of its columns is marked wild, so every
+    # method of a vector that stores its own name marks it wild on the same path (a rename through a live column view - col.alias(..),
+    # col.name = .. - is otherwise never noticed by the table)
+    from ..symx import Interp as _WI
+    from ..symx import show as _wshow
+    from .c08 import _compatible as _wcompat
+    unmarked = []
+    n_writers = 0
+    for q, fn in sorted(prog.functions.items()):
+        if fn.cls != "Vector" or isinstance(fn.node, ast.Lambda) or fn.parent is not None or not fn.params:
+            continue
+        if not any(isinstance(n, ast.Attribute) and n.attr == "_name" and isinstance(n.ctx, ast.Store) for n in ast.walk(fn.node)):
+            continue
+        wi = _WI(prog, fn)
+        WS = ("param", fn.params[0])
+        names = [e for e in wi.events if e.kind == "store" and e.term == ("attr", WS, "_name")]
+        marks = [e for e in wi.events if e.kind == "store" and e.term == ("attr", WS, "_wild") and e.value == ("const", "bool", True)]
+        if not names:
+            continue
+        n_writers += 1
+        for e in names:
+            if not any(tuple(m.conds) == tuple(e.conds) or (_wcompat(m.conds, e.conds) and len(m.conds) <= len(e.conds)) for m in marks):
+                unmarked.append(f"{q} (line {getattr(e.node, 'lineno', '?')}) stores self._name without `self._wild = True`")
+    ctx.ob("f.map-fresh", "package", "name-writes-mark-wild", not unmarked and n_writers >= 2,
+           f"{n_writers} vector methods store their own name, each marking the vector wild", None,
+           message="; ".join(unmarked[:2]) + ": a column renamed through a live view keeps its old accessor in the table's map (dir(), the "
+                   "repr dot row and attribute access go stale until something else rebuilds the map)")
     allowed_loads = {
         "table.Table._current_column_map": "the freshness helper itself",
         "table.Row.__getattr__": "a Row reads its own snapshot taken at creation",
